@@ -24,12 +24,34 @@ def _run_chunk(args):
             lines.append("clear")
             lines.extend(ml)
             counts.append(len(ml))
-        out = common.run_driver("pat", "\n".join(lines) + "\n")
-        model_all = []
-        k = 0
-        for n in counts:
-            model_all.append(out[k + 1:k + 1 + n])
-            k += 1 + n
+        try:
+            out = common.run_driver("pat", "\n".join(lines) + "\n")
+            model_all = []
+            k = 0
+            for n in counts:
+                model_all.append(out[k + 1:k + 1 + n])
+                k += 1 + n
+        except RuntimeError:
+            # the driver process died on this chunk (a run-time panic of the Lean executable — e.g. `Nat.pow exponent is too big`
+            # on an astronomically large power, where CPython raises OverflowError / MemoryError or never returns): run the scripts
+            # one by one; a script the driver cannot evaluate has no model lines (validated=False: the implementation-side oracles
+            # still decide it) and is kept under replays/ for diagnosis.  Never a verdict by itself.
+            model_all = []
+            for cid, script in scripts:
+                ml = pat_impl.model_lines(script)
+                try:
+                    out1 = common.run_driver("pat", "\n".join(["clear"] + ml) + "\n")
+                    model_all.append(out1[1:1 + len(ml)])
+                except RuntimeError as ex:
+                    model_all.append(None)
+                    try:
+                        import hashlib, json, os
+                        os.makedirs(common.REPLAY_DIR, exist_ok=True)
+                        h = hashlib.sha1("\n".join(ml).encode()).hexdigest()[:10]
+                        with open(os.path.join(common.REPLAY_DIR, "driver-panic-%s.json" % h), "w") as f:
+                            json.dump({"kind": "model-driver-panic (not a verdict)", "case": cid, "model_lines": ml, "error": str(ex)[-400:]}, f, indent=1)
+                    except Exception:  # noqa: BLE001
+                        pass
     return [(cid, script, impl_all[i], model_all[i] if model_all is not None else None) for i, (cid, script) in enumerate(scripts)]
 
 
